@@ -255,23 +255,65 @@ def lo_hi(t):
 # Instances
 # ------------------------------------------------------------------------------------------------
 
+def _pollard_rho(n):
+    """A non-trivial factor of the odd composite n (Brent's variant, deterministic start values)."""
+    if n % 2 == 0:
+        return 2
+    for c in range(1, 200):
+        y, r, q, g = 2, 1, 1, 1
+        f = lambda v: (v * v + c) % n      # noqa: E731
+        x = ys = y
+        while g == 1:
+            x = y
+            for _ in range(r):
+                y = f(y)
+            k = 0
+            while k < r and g == 1:
+                ys = y
+                for _ in range(min(128, r - k)):
+                    y = f(y)
+                    q = q * abs(x - y) % n
+                g = math.gcd(q, n)
+                k += 128
+            r *= 2
+        if g == n:
+            g = 1
+            while g == 1:
+                ys = f(ys)
+                g = math.gcd(abs(x - ys), n)
+        if g != n:
+            return g
+    raise RuntimeError(f"cannot factor {n}")
+
+
+def _split(n, acc):
+    if n == 1:
+        return
+    if intconv.is_prime_mr(n):
+        acc[n] = acc.get(n, 0) + 1
+        return
+    g = _pollard_rho(n)
+    _split(g, acc)
+    _split(n // g, acc)
+
+
 def factorize(n):
-    out = []
+    """COMPLETE prime factorisation [(p, e)…], ascending — the library stores a magnitude as its prime-power pack and
+    get_value rounds once per base power, so a composite left unsplit would describe a different computation."""
+    acc = {}
     tz = (n & -n).bit_length() - 1
     if tz:
-        out.append((2, tz))
+        acc[2] = tz
         n >>= tz
     for p in intconv._small_primes():
         if p * p > n:
             break
-        e = 0
         while n % p == 0:
             n //= p
-            e += 1
-        if e:
-            out.append((p, e))
-    if n > 1:
-        out.append((n, 1))
+            acc[p] = acc.get(p, 0) + 1
+    _split(n, acc)
+    out = sorted(acc.items())
+    assert all(intconv.is_prime_mr(q) for q, _ in out)
     return out
 
 
@@ -348,6 +390,8 @@ def gen_instances(rng, tier):
     # Directed, in every run: integral source -> floating target with factors so large that the SCALING step (done in the
     # floating type) leaves the target's finite range for some source values and not for others; factors the target
     # cannot represent at all (the conversion must not compile); and the reciprocal direction (tiny results).
+    for (s, t, n, d) in TWO_PRIME_INSTANCES:
+        inst.append({"id": len(inst), "S": s, "T": t, "C": common(s, t), "N": n, "D": d, "pf": pf_text(n, d), "directed": True})
     for s in HUGE_SOURCES:
         for t, facs in HUGE_FACTORS.items():
             for (n, d) in facs:
@@ -355,6 +399,11 @@ def gen_instances(rng, tier):
     return inst
 
 
+# factors whose numerator / denominator has two prime factors above the library's trial-division table (get_value rounds
+# once per prime base, so 9/(142903*169583) is 9 * fl(1/142903) * fl(1/169583), not 9 * fl(1/24233919449))
+TWO_PRIME_INSTANCES = [("f80", "f64", 9, 142903 * 169583), ("f64", "f64", 142903 * 169583, 7),
+                       ("i32", "f32", 1000003 * 999983, 1000033 * 1000037), ("f32", "i64", 5, 142903 * 169583),
+                       ("u16", "f80", 1, 142903 * 169583)]
 HUGE_SOURCES = ["i8", "u8", "i32", "i64", "u64"]
 HUGE_FACTORS = {
     "f32": [(10 ** 20, 1), (10 ** 24, 1), (10 ** 30, 1), (10 ** 37, 1), (2 ** 100, 1), (3 * 10 ** 36, 7),
